@@ -69,3 +69,17 @@ claim(
     "Trusted: python ast, bfsa abstract interpreter with concrete control, the lane domain and the FIPS-197 reference written in it (rules/c16.py, bfsa/domains/lanes.py).",
     "DESIGN.md section 4, C16",
 )
+claim(
+    "C10", "other",
+    "byte-layout interpretation of the TLV part constructors and the set_config framing; relational normal forms of the filter predicates and the split test; emptiness abstract interpretation (three-valued, disjunctive loop fixpoint) of the block list",
+    "Decides: conf_dict_to_list returns sorted(deletions) + sorted(assignments) with exactly complementary predicates over ((key, value), content) items; the three parts are 02 KK KK, 01 KK KK VV FF | FF and 01 KK KK VV LL content | FF (key big-endian, LL = len(content)) under the documented selection conditions; a block is closed exactly when current block + pending postface + preface + data + own postface would exceed MAX_TLVBLOCK_SIZE = 117 (strictly); by an emptiness invariant no closed block is empty (including an oversize entry in first position) and an empty last block is removed; set_config frames {U8 len, block}* over the TLV blocks followed by the caller's blocks, closes with one 00, declares len(blob) and tags the component TYPE=03 ENC=02 FMT=03 REBOOT=01, encrypted. Not decided: that a decoder recovers exactly the dictionary's operations for arbitrary dictionaries, and the per-block size bound beyond the split test.",
+    "Trusted: python ast, bfsa (layout, guard normal forms, EMPT interpreter).",
+    "DESIGN.md section 4, C10",
+)
+claim(
+    "C11", "other",
+    "path rule with structural dominance on set_config; exception-provenance rule for the swallowing handler (implicit KeyError sources typed by shape inference); complementary-path rule for pop-or-set; who-may-write (effect) rule for comments and auth_blocks",
+    "Decides the per-operation facts that histories compose from: set_config deletes the component found by the TYPE=03 search and appends the new component as the last mutation of the list, unconditionally; only the explicit not-found KeyError can reach the swallowing handler (no implicit KeyError source lies inside the try body); each of Configuration / DeviceSettings / RequiresBusAddress is stored on one path and removed on the complementary path with values derived from the current configuration argument only, and no other comment is written; auth_blocks is written only as {block.tag: block}; derivation adds exactly one initial block selected by cust_key_support and the update block (config[(0x0202,0x82)], identifier version) exactly when both exist. Arbitrary operation sequences are not enumerated.",
+    "Trusted: python ast, bfsa.",
+    "DESIGN.md section 4, C11",
+)
